@@ -244,6 +244,18 @@ theorem poisson_spec {D dp dq : Nat} (hD : D ≤ 63) (hd : dp + dq ≤ D) (p q :
   refine ⟨toMv_polyPoisson hD hd p q hp hq σ hσ, ?_, fun h1 h2 => length_polyPoisson hD hd h1 h2 p q hp hq σ hσ⟩
   intro h; unfold polyPoisson; rw [if_pos h]
 
+/-- **poisson_bracket_spec** (`_polynomial_poisson_bracket`, graded): the result is well-formed and its block `r ≤ max_deg`
+is `Σ_{d1+d2 = r+2} {P[d1], Q[d2]}` (all pairs of input degrees `≤ max_deg`), i.e. the bracket truncated at `max_deg`;
+any scheduler; the `np.any` shortcuts, the `res_deg` window and the shape guard (which only ever rejects the one-slot
+zero block of a constant operand) are part of the model. -/
+theorem poisson_bracket_spec {D N : Nat} (hD : D ≤ 63) (hN : N + 2 ≤ D) (σ : Nat → List (List Nat))
+    (hσ : ∀ n, (σ n).flatten.Perm (List.range n)) (P Q : GPoly K) (hP : WF P N) (hQ : WF Q N) :
+    WF (polynomialPoissonBracket (mkTables D) σ P Q N) N ∧ ∀ r, r ≤ N →
+      toMv (mkTables D) r ((polynomialPoissonBracket (mkTables D) σ P Q N).getD r [])
+        = ∑ d1 ∈ Finset.range (N + 1), (if d1 ≤ r + 2 ∧ r + 2 - d1 ≤ N then
+          bracket (toMv (mkTables D) d1 (P.getD d1 [])) (toMv (mkTables D) (r + 2 - d1) (Q.getD (r + 2 - d1) [])) else 0) :=
+  toMv_polynomialPoissonBracket hD hN σ hσ P Q hP hQ
+
 end ring
 
 section field
@@ -255,6 +267,15 @@ theorem integrate_spec {D d : Nat} (hD : D ≤ 63) (hd : d + 1 ≤ D) (p : List 
     (polyIntegrate (mkTables D) p v.val d).length = psi 6 (d + 1) ∧
     pderiv v (toMv (mkTables D) (d + 1) (polyIntegrate (mkTables D) p v.val d)) = toMv (mkTables D) d p :=
   ⟨length_polyIntegrate _ _ _ _, pderiv_toMv_polyIntegrate hD hd p hp v⟩
+
+/-- **integrate_spec** (graded, `_polynomial_integrate`): `max_deg+2` well-formed blocks, zero constant block, and
+`∂/∂x_v` of block `r+1` of the result is block `r` of the input -/
+theorem integrate_graded_spec {D N : Nat} (hD : D ≤ 63) (hN : N + 1 ≤ D) (P : GPoly K) (hP : WF P N) (v : Fin 6) :
+    WF (polynomialIntegrate (mkTables D) P v.val N) (N + 1) ∧
+    toMv (mkTables D) 0 ((polynomialIntegrate (mkTables D) P v.val N).getD 0 []) = 0 ∧
+    ∀ r, r ≤ N → pderiv v (toMv (mkTables D) (r + 1) ((polynomialIntegrate (mkTables D) P v.val N).getD (r + 1) []))
+      = toMv (mkTables D) r (P.getD r []) :=
+  toMv_polynomialIntegrate hD hN P hP v
 
 end field
 
